@@ -101,6 +101,63 @@ pub open spec fn modify_liquidity_spec(w: Whirlpool, p: Position, tl: Tick, tu: 
         assert(rg =~= reward_growths_inside);
     }
 //@ end
+
+// ------------------------------------------------------------------ the wrappers between the handlers and the computation (Anchor side)
+//@ assume abstract Anchor tick array: `dyn TickArrayType` is specified by the view tick_at(index, spacing) with the get_tick / update_tick frame contract that fragment tick_arrays proves for the fixed / zeroed arrays and, at byte level, for the dynamic array
+pub open spec fn tick_is_upd(t: Tick, u: TickUpdate) -> bool {
+    t.initialized == u.initialized && t.liquidity_net == u.liquidity_net && t.liquidity_gross == u.liquidity_gross && t.fee_growth_outside_a == u.fee_growth_outside_a
+    && t.fee_growth_outside_b == u.fee_growth_outside_b && (forall|k: int| 0 <= k < 3 ==> t.reward_growths_outside[k] == u.reward_growths_outside[k])
+}
+pub trait TickArrayType {
+    spec fn tick_at(&self, tick_index: int, spacing: int) -> Option<Tick>;
+    spec fn variable(&self) -> bool;
+    fn is_variable_size(&self) -> (r: bool) ensures r == self.variable();
+    fn get_tick(&self, tick_index: i32, tick_spacing: u16) -> (r: Result<Tick>)
+        ensures match self.tick_at(tick_index as int, tick_spacing as int) { Some(t) => r == Ok::<Tick, Error>(t), None => r is Err };
+    fn update_tick(&mut self, tick_index: i32, tick_spacing: u16, update: &TickUpdate) -> (r: Result<()>)
+        ensures final(self).variable() == old(self).variable(),
+            match old(self).tick_at(tick_index as int, tick_spacing as int) {
+                Some(t0) => r is Ok && (final(self).tick_at(tick_index as int, tick_spacing as int) matches Some(t1) && tick_is_upd(t1, *update))
+                    && forall|j: int| j != tick_index ==> #[trigger] final(self).tick_at(j, tick_spacing as int) == old(self).tick_at(j, tick_spacing as int),
+                None => r is Err && forall|j: int| #[trigger] final(self).tick_at(j, tick_spacing as int) == old(self).tick_at(j, tick_spacing as int) };
+}
+/// C05/C07/C11: the update is modify_liquidity_spec evaluated on the position's OWN two bound ticks, lower from the lower array, upper from the upper array
+//@ fn manager/liquidity_manager.rs calculate_modify_liquidity -> r tags=C05,C07,C11,C12
+    ensures
+        r matches Ok(u) ==> (tick_array_lower.tick_at(position.tick_lower_index as int, whirlpool.tick_spacing as int) matches Some(tl)
+            && tick_array_upper.tick_at(position.tick_upper_index as int, whirlpool.tick_spacing as int) matches Some(tu)
+            && modify_liquidity_spec(*whirlpool, *position, tl, tu, position.tick_lower_index as int, position.tick_upper_index as int,
+                tick_array_lower.variable(), tick_array_upper.variable(), liquidity_delta as int, timestamp as int, u)),
+//@ end
+pub open spec fn refresh_spec(w: Whirlpool, p: Position, tl: Tick, tu: Tick, lv: bool, uv: bool, ts: int, pu: PositionUpdate, ri: [WhirlpoolRewardInfo; NUM_REWARDS]) -> bool {
+    exists|u: ModifyLiquidityUpdate| #[trigger] modify_liquidity_spec(w, p, tl, tu, p.tick_lower_index as int, p.tick_upper_index as int, lv, uv, 0, ts, u) && u.position_update == pu && u.reward_infos == ri
+}
+/// the fee / reward refresh is the same computation with a zero liquidity change
+//@ fn manager/liquidity_manager.rs calculate_fee_and_reward_growths -> r tags=C07,C11,C12
+    ensures
+        r is Ok ==> tick_array_lower.tick_at(position.tick_lower_index as int, whirlpool.tick_spacing as int) is Some
+            && tick_array_upper.tick_at(position.tick_upper_index as int, whirlpool.tick_spacing as int) is Some,
+        r matches Ok(x) ==> refresh_spec(*whirlpool, *position,
+            tick_array_lower.tick_at(position.tick_lower_index as int, whirlpool.tick_spacing as int)->Some_0, tick_array_upper.tick_at(position.tick_upper_index as int, whirlpool.tick_spacing as int)->Some_0,
+            tick_array_lower.variable(), tick_array_upper.variable(), timestamp as int, x.0, x.1),
+//@ inject before /^    Ok\(\(update\.position_update, update\.reward_infos\)\)/
+    proof { assert(refresh_spec(*whirlpool, *position, tick_lower, tick_upper, tick_array_lower.variable(), tick_array_upper.variable(), timestamp as int, update.position_update, update.reward_infos)); }
+//@ end
+/// C05: writing an update back: position, lower bound tick (lower array), upper bound tick (upper array or the shared one), pool liquidity / rewards / timestamp; nothing else
+//@ fn manager/liquidity_manager.rs sync_modify_liquidity_values -> r tags=C05,C07,C11,C12
+    requires old(position).tick_lower_index != old(position).tick_upper_index,
+    ensures ({
+        let p0 = *old(position); let sp = old(whirlpool).tick_spacing as int; let u = modify_liquidity_update;
+        r is Ok ==> {
+            &&& final(position).liquidity == u.position_update.liquidity && final(position).tick_lower_index == p0.tick_lower_index && final(position).tick_upper_index == p0.tick_upper_index
+            &&& final(position).fee_owed_a == u.position_update.fee_owed_a && final(position).fee_owed_b == u.position_update.fee_owed_b && final(position).whirlpool == p0.whirlpool
+            &&& *final(whirlpool) == (Whirlpool { reward_infos: u.reward_infos, reward_last_updated_timestamp: reward_last_updated_timestamp, liquidity: u.whirlpool_liquidity, ..*old(whirlpool) })
+            &&& (final(tick_array_lower).tick_at(p0.tick_lower_index as int, sp) matches Some(t) && tick_is_upd(t, u.tick_lower_update))
+            &&& (match tick_array_upper { Some(up) => final(up).tick_at(p0.tick_upper_index as int, sp) matches Some(t) && tick_is_upd(t, u.tick_upper_update),
+                    None => final(tick_array_lower).tick_at(p0.tick_upper_index as int, sp) matches Some(t) && tick_is_upd(t, u.tick_upper_update) })
+            &&& (forall|j: int| j != p0.tick_lower_index && (tick_array_upper is Some || j != p0.tick_upper_index) ==> #[trigger] final(tick_array_lower).tick_at(j, sp) == old(tick_array_lower).tick_at(j, sp))
+        } }),
+//@ end
 }
 
 pub mod token_math_est {
